@@ -3,6 +3,7 @@ package mfs
 import (
 	"fmt"
 	"os"
+	"strings"
 	"sync"
 	"sync/atomic"
 
@@ -21,6 +22,9 @@ type Faults struct {
 	Fired    string // description of the point that failed
 	Trace    []string
 	Keep     bool // keep a trace of all points (dry run)
+	// Match, when not empty, restricts the fault points to those whose name contains it (other
+	// points are neither counted nor failed). Set it only while no call is in flight.
+	Match string
 }
 
 // ErrInjected marks injected failures.
@@ -35,6 +39,9 @@ func (f *Faults) Arm(at int64) { atomic.StoreInt64(&f.FailAt, at) }
 func (f *Faults) Count() int64 { return atomic.LoadInt64(&f.n) }
 
 func (f *Faults) hit(point string) error {
+	if f.Match != "" && !strings.Contains(point, f.Match) {
+		return nil
+	}
 	k := atomic.AddInt64(&f.n, 1)
 	if f.Keep {
 		f.mu.Lock()
